@@ -765,12 +765,14 @@ func evalC20Lock(c c20Lock, o *Obs) error {
 	var round, arrived atomic.Int64
 	var stop atomic.Bool
 	msgs := make([]*wire.MsgFilterLoad, g) // the message worker i loaded in the current round (nil if it did not)
+	panicCh := make(chan error, 16)
 	var wg sync.WaitGroup
 	for w := 0; w < g; w++ {
 		w := w
 		wg.Add(1)
 		go func() {
 			defer wg.Done()
+			defer c20Recover(panicCh)
 			for r := int64(1); ; r++ {
 				for spins := 0; round.Load() < r; spins++ {
 					if stop.Load() {
@@ -813,10 +815,19 @@ func evalC20Lock(c c20Lock, o *Obs) error {
 		done = r
 		arrived.Store(0)
 		round.Store(r)
-		for spins := 0; arrived.Load() < int64(g); spins++ {
+		for spins := 0; arrived.Load() < int64(g) && failure == nil; spins++ {
 			if spins%64 == 63 {
 				runtime.Gosched()
+				select {
+				case err := <-panicCh: // a worker died (possibly holding the filter's lock: the others may never return)
+					failure = fmt.Errorf("%w; lockstep round %d (%s)", err, r, c20RoundOps(c, r))
+				default:
+				}
 			}
+		}
+		if failure != nil {
+			stop.Store(true)
+			return failure
 		}
 		// quiet state: every worker has returned from its call of this round
 		loaded, msg := f.IsLoaded(), f.MsgFilterLoad()
